@@ -118,7 +118,10 @@ C17_Elevator(ents, opts, e, a) ==
        /\ {a.ents[i] : i \in DOMAIN a.ents} = {InformedOfSel(StopSel(s)) : s \in stops}
        /\ Len(a.ents) = Cardinality(stops)
        /\ a.meta = (opts.addMetadata /\ "mercury" \in DOMAIN e /\ IsSome(e.mercury))
-       /\ a.periods = e.periods /\ a.header = MapSeq(ConvText, e.header) /\ a.url = MapSeq(ConvText, e.url)
+       (* periods and texts: those of the alert itself when it is the only member of its group; which member's      *)
+       (* survive a merge (or whether they are combined) is not something the property says                         *)
+       /\ Cardinality(ElevMembers(ents, opts, gid)) = 1 =>
+              (a.periods = e.periods /\ a.header = MapSeq(ConvText, e.header) /\ a.url = MapSeq(ConvText, e.url))
 
 C17_Other(e, opts, a, r) ==
     LET prios == {Val(SelPrio(e.sels[i])) : i \in {i \in DOMAIN e.sels : IsSome(SelPrio(e.sels[i]))}}
